@@ -765,7 +765,13 @@ func (c *checker) run(only string) int {
 	ev := c.evidence(outs, time.Since(t0).Seconds(), loadS, len(violLines), knownLines, inconclusive, mismatches, validated, validMismatch)
 	os.MkdirAll(filepath.Join(verifDir, "evidence"), 0o755)
 	eb, _ := json.MarshalIndent(ev, "", " ")
-	if err := os.WriteFile(filepath.Join(verifDir, "evidence", c.prop+".json"), eb, 0o644); err != nil {
+	evname := c.prop + ".json"
+	if only != "" || len(c.overrideBounds) > 0 || os.Getenv("VERIF_REPLACE") != "" || c.noReplay {
+		// a development run (one entry, overridden bounds, replaced files, no replay) does not
+		// describe the registered check: it must not overwrite the check's evidence
+		evname = c.prop + ".partial.json"
+	}
+	if err := os.WriteFile(filepath.Join(verifDir, "evidence", evname), eb, 0o644); err != nil {
 		fatal("%v", err)
 	}
 	if exit == 0 {
